@@ -245,7 +245,7 @@ func diffAnswers(a, b []*Answer) (kinds []string, detail string) {
 			}
 			seen[m] = true
 			if detail == "" {
-				detail = fmt.Sprintf("op#%d %s: A=%s%s B=%s%s", a[i].Op, a[i].Method, clip(a[i].Result, 300), a[i].Err, clip(b[i].Result, 300), b[i].Err)
+				detail = fmt.Sprintf("op#%d %s: %s", a[i].Op, a[i].Method, explainDiff(a[i].Result+a[i].Err, b[i].Result+b[i].Err))
 			}
 		}
 	}
@@ -349,4 +349,41 @@ func distinct(xs []string) int {
 		m[x] = true
 	}
 	return len(m)
+}
+
+
+// explainDiff renders the difference of two normalised answers: for JSON arrays the elements
+// present on one side only, otherwise both values clipped.
+func explainDiff(a, b string) string {
+	var la, lb []json.RawMessage
+	if json.Unmarshal([]byte(a), &la) == nil && json.Unmarshal([]byte(b), &lb) == nil && (len(la) > 0 || len(lb) > 0) {
+		ma, mb := map[string]int{}, map[string]int{}
+		for _, x := range la {
+			ma[string(x)]++
+		}
+		for _, x := range lb {
+			mb[string(x)]++
+		}
+		var onlyA, onlyB []string
+		for k, n := range ma {
+			if mb[k] < n {
+				onlyA = append(onlyA, clip(k, 260))
+			}
+		}
+		for k, n := range mb {
+			if ma[k] < n {
+				onlyB = append(onlyB, clip(k, 260))
+			}
+		}
+		sort.Strings(onlyA)
+		sort.Strings(onlyB)
+		if len(onlyA) > 3 {
+			onlyA = append(onlyA[:3], fmt.Sprintf("(+%d more)", len(onlyA)-3))
+		}
+		if len(onlyB) > 3 {
+			onlyB = append(onlyB[:3], fmt.Sprintf("(+%d more)", len(onlyB)-3))
+		}
+		return fmt.Sprintf("|A|=%d |B|=%d only in A: %v only in B: %v", len(la), len(lb), onlyA, onlyB)
+	}
+	return fmt.Sprintf("A=%s B=%s", clip(a, 300), clip(b, 300))
 }
